@@ -429,6 +429,34 @@ fn parsing_for<T: NT>(chk: &Check, id: &str, tier: Tier, cnt: &Counters) {
             }
         }
     }
+    // every numeral up to 1 100 000 (seven digits; past 2^16 and 2^20), plain and with '+': a
+    // hand-rolled accumulator in the representation type wraps somewhere in here
+    {
+        let t2 = AtomicU64::new(0);
+        let a2 = AtomicU64::new(0);
+        (0u32..110).into_par_iter().for_each(|blk| {
+            use std::fmt::Write as _;
+            let mut s = String::with_capacity(12);
+            let (mut t, mut a) = (0u64, 0u64);
+            for v in (blk * 10_000)..((blk + 1) * 10_000) {
+                for plus in [false, true] {
+                    s.clear();
+                    if plus {
+                        s.push('+');
+                    }
+                    let _ = write!(s, "{}", v);
+                    t += 1;
+                    if check_parse_one::<T>(chk, id, &s) {
+                        a += 1;
+                    }
+                }
+            }
+            t2.fetch_add(t, Ordering::Relaxed);
+            a2.fetch_add(a, Ordering::Relaxed);
+        });
+        tot += t2.load(Ordering::Relaxed);
+        acc += a2.load(Ordering::Relaxed);
+    }
     // a second, smaller alphabet with multi-byte characters (2, 3 and 4 bytes in UTF-8): byte-offset
     // slicing or per-byte classification goes wrong on exactly these
     {
@@ -691,7 +719,7 @@ impl<M: helgoboss_midi::ShortMessage> Audit for M {
 }
 
 pub fn run_c04(chk: &Check, tier: Tier) {
-    chk.rule("every conversion into each of the six restricted integer types over its source domain (8/16-bit and newtype sources complete; 32-bit complete in thorough; wider sources over the truncation alphabet {low 16 bits} x {high-bit patterns incl. sign extension}); `new` over every repr value under catch_unwind; all strings over a 14-symbol alphabet up to length 4 (6 thorough), all 7-bit ASCII strings up to length 3 (4 thorough), every Unicode scalar value alone / before / after a digit, plus structured numerals; constants; range audit of message fields over all 2^21 triples and of encoder outputs over all 14-bit values. non-trivial = distinct (operation,input) cases whose input is OUT of range, i.e. that must be rejected");
+    chk.rule("every conversion into each of the six restricted integer types over its source domain (8/16-bit and newtype sources complete; 32-bit complete in thorough; wider sources over the truncation alphabet {low 16 bits} x {high-bit patterns incl. sign extension}); `new` over every repr value under catch_unwind; all strings over a 14-symbol alphabet up to length 4 (6 thorough), all 7-bit ASCII strings up to length 3 (4 thorough), every Unicode scalar value alone / before / after a digit, every numeral up to 1 100 000, plus structured numerals; constants; range audit of message fields over all 2^21 triples and of encoder outputs over all 14-bit values. non-trivial = distinct (operation,input) cases whose input is OUT of range, i.e. that must be rejected");
     let cnt = Counters { evals: AtomicU64::new(0), out_of_range_inputs: AtomicU64::new(0), in_range_inputs: AtomicU64::new(0) };
     check_new::<U4>(chk, &cnt);
     check_new::<U7>(chk, &cnt);
@@ -783,6 +811,31 @@ fn check_display<T: NT>(chk: &Check, cnt: &Counters) {
             Err(msg) => vio!(chk, "C05", "display-panics", T::NAME, case(), "Display of {}({}) panicked: {}", T::NAME, t.getw(), msg),
         }
         cnt.evals.fetch_add(1, Ordering::Relaxed);
+        // with formatter flags (width, fill, alignment, sign, zero padding, precision, alternate) the
+        // output may be padded and signed like an integer's, but it must still PRINT THE DECIMAL
+        // VALUE: stripped of padding, '+' and leading zeros it must be the numeral
+        let r = catch(|| {
+            [
+                format!("{:5}", t), format!("{:<7}", t), format!("{:^9}", t), format!("{:*>8}", t), format!("{:05}", t), format!("{:+}", t),
+                format!("{:.2}", t), format!("{:.0}", t), format!("{:#}", t), format!("{:+09.3}", t), format!("{:1}", t), format!("{:_<3.1}", t),
+            ]
+        });
+        match r {
+            Ok(outs) => {
+                const SPECS: [&str; 12] = ["{:5}", "{:<7}", "{:^9}", "{:*>8}", "{:05}", "{:+}", "{:.2}", "{:.0}", "{:#}", "{:+09.3}", "{:1}", "{:_<3.1}"];
+                for (i, o) in outs.iter().enumerate() {
+                    let core = o.trim_matches(|c| c == ' ' || c == '*' || c == '_');
+                    let core = core.strip_prefix('+').unwrap_or(core);
+                    let digits = core.trim_start_matches('0');
+                    let digits = if digits.is_empty() && core.ends_with('0') { "0" } else { digits };
+                    if digits != t.getw().to_string() {
+                        vio!(chk, "C05", "display-prints-decimal", format!("{}/format-flags", T::NAME), format!("displayspec|{}|{}|{}", T::NAME, t.getw(), SPECS[i]), "format!({:?}, {}({})) = {:?}, which is not the decimal value (padded / signed)", SPECS[i], T::NAME, t.getw(), o);
+                    }
+                }
+                cnt.evals.fetch_add(12, Ordering::Relaxed);
+            }
+            Err(msg) => vio!(chk, "C05", "display-panics", format!("{}/format-flags", T::NAME), case(), "Display of {}({}) with formatter flags panicked: {}", T::NAME, t.getw(), msg),
+        }
     }
     if T::min_const().getw() != 0 || T::max_const().getw() != T::MAXV || T::default().getw() != 0 || T::min_const() > T::max_const() {
         vio!(chk, "C05", "min-max-default", T::NAME, format!("consts|{}", T::NAME), "{}: MIN={} MAX={} default={}", T::NAME, T::min_const().getw(), T::max_const().getw(), T::default().getw());
@@ -790,7 +843,7 @@ fn check_display<T: NT>(chk: &Check, cnt: &Counters) {
 }
 
 pub fn run_c05(chk: &Check, tier: Tier) {
-    chk.rule("every conversion into and out of each restricted integer type judged by reference arithmetic on (sign, u128 magnitude): accepted iff in range and value preserved; parsing against a reference recogniser '+'? digit+ with value in range over all strings of a 14-symbol alphabet up to length 4 (6 thorough), all 7-bit ASCII strings up to length 3 (4 thorough), every Unicode scalar value alone / before / after a digit, plus leading-zero/boundary numerals; Display prints the decimal value and parse(display(v)) == v for every value; cmp/eq/hash agree with the integers for all pairs (U14: neighbourhoods in quick, all pairs in thorough). non-trivial = distinct (operation,input) cases whose input is IN range, i.e. whose value must be preserved");
+    chk.rule("every conversion into and out of each restricted integer type judged by reference arithmetic on (sign, u128 magnitude): accepted iff in range and value preserved; parsing against a reference recogniser '+'? digit+ with value in range over all strings of a 14-symbol alphabet up to length 4 (6 thorough), all 7-bit ASCII strings up to length 3 (4 thorough), every Unicode scalar value alone / before / after a digit, plus leading-zero/boundary numerals and every numeral up to 1 100 000; Display prints the decimal value and parse(display(v)) == v for every value, also under twelve formatter flag combinations (padding, sign, zero fill, precision); cmp/eq/hash agree with the integers for all pairs (U14: neighbourhoods in quick, all pairs in thorough). non-trivial = distinct (operation,input) cases whose input is IN range, i.e. whose value must be preserved");
     let cnt = Counters { evals: AtomicU64::new(0), out_of_range_inputs: AtomicU64::new(0), in_range_inputs: AtomicU64::new(0) };
     conversions(chk, "C05", tier, &cnt);
     parsing(chk, "C05", tier, &cnt);
